@@ -1,7 +1,7 @@
 /* drv_mux: C03 observation driver.  Scripts on stdin, one run per line:
  *    uid:t,t,t|uid:t,t|... <TAB> ops
  * Every constituent is built by parsing a real VEVENT whose occurrences are an
- * RDATE list at 2030-01-01T00:00:00Z + t seconds; they are combined with
+ * RDATE list at 2030-01-01T00:00:00Z + t seconds (t >= 100000: day t / 100000 of January, second t % 100000, 0 = an all-day occurrence); they are combined with
  * echs_evstrm_vmux() and consumed with the op string (N = next/peek, P = pop).
  * Logs the results; computes no expectation. */
 #include "nd.h"
@@ -12,11 +12,20 @@ static FILE *o;
 static echs_evstrm_t mkstrm(const char *uid, const char *times, echs_oid_t *oid)
 {
 	char ics[4096]; char *p = ics;
-	p += sprintf(p, "BEGIN:VCALENDAR\nBEGIN:VEVENT\nUID:%s\nSUMMARY:x\nDTSTART:20300101T000000Z\n", uid);
+	/* a constituent whose time codes are all of the form day * 100000 (day >= 1) is an all-day event (DTSTART;VALUE=DATE):
+	 * its occurrences go before every timed occurrence of the same day */
+	int allday = *times != 0;
+	for (const char *q = times; *q;) { int t = atoi(q); if (t < 100000 || t % 100000) allday = 0; while (*q && *q != ',') q++; if (*q) q++; }
+	p += sprintf(p, "BEGIN:VCALENDAR\nBEGIN:VEVENT\nUID:%s\nSUMMARY:x\n%s\n", uid, allday ? "DTSTART;VALUE=DATE:20300101" : "DTSTART:20300101T000000Z");
 	if (*times) {
-		p += sprintf(p, "RDATE:");
+		p += sprintf(p, allday ? "RDATE;VALUE=DATE:" : "RDATE:");
 		const char *q = times; int first = 1;
-		while (*q) { int t = atoi(q); p += sprintf(p, "%s20300101T%02d%02d%02dZ", first ? "" : ",", t / 3600, t / 60 % 60, t % 60); first = 0; while (*q && *q != ',') q++; if (*q) q++; }
+		while (*q) {
+			int t = atoi(q), day = t / 100000; t %= 100000;
+			if (allday) p += sprintf(p, "%s203001%02d", first ? "" : ",", 1 + day);
+			else p += sprintf(p, "%s203001%02dT%02d%02d%02dZ", first ? "" : ",", 1 + day, t / 3600, t / 60 % 60, t % 60);
+			first = 0; while (*q && *q != ',') q++; if (*q) q++;
+		}
 		p += sprintf(p, "\n");
 	}
 	p += sprintf(p, "END:VEVENT\nEND:VCALENDAR\n");
@@ -71,7 +80,7 @@ int main(void)
 				if (echs_nul_event_p(e)) fputs("[]", o);
 				else {
 					const char *nm = "?"; for (size_t k = 0; k < ns; k++) if (ss[k] && oids[k] == e.oid) { nm = names[k]; break; }
-					int t = (e.from.y == 2030 && e.from.m == 1 && e.from.d == 1) ? (int)(e.from.H * 3600 + e.from.M * 60 + e.from.S) : -1;
+					int t = (e.from.y == 2030 && e.from.m == 1) ? (int)(e.from.d - 1) * 100000 + (echs_instant_all_day_p(e.from) ? 0 : (int)(e.from.H * 3600 + e.from.M * 60 + e.from.S)) : -1;
 					fprintf(o, "[%d,\"%s\"]", t, nm);
 				}
 			}
